@@ -442,6 +442,11 @@ impl<'a> Parser<'a> {
 
     /// Parses multi-select lists (e.g., "[foo, bar, baz]")
     fn parse_multi_list(&mut self) -> ParseResult {
+        // A multi-select list requires at least one element ("[]" written
+        // without a space is tokenized as Token::Flatten and never gets here).
+        if self.peek(0) == &Token::Rbracket {
+            return Err(self.err(self.peek(0), "Expected an expression, found ']'", true));
+        }
         Ok(Ast::MultiList {
             offset: self.offset,
             elements: self.parse_list(Token::Rbracket)?,
